@@ -1,17 +1,25 @@
 #!/bin/bash
 # Regression over the seeded corpus: applies every /verif/seeded/<id>/patch.diff to /repo, runs the check of its
-# property, reverts, and reports the ones that are NOT reported any more. Usage: tools/replay_seeded.sh [id-prefix]
+# property, reverts, and reports the ones that are NOT reported any more, and for the caught ones whether a failing
+# input was replayed on the real code. Usage: tools/replay_seeded.sh [id-prefix]
+# The evidence files are put back afterwards (committed evidence comes from clean runs only).
 cd /verif
 if [ -n "$(git -C /repo status --porcelain)" ]; then echo "/repo not clean"; exit 2; fi
+sav=$(mktemp -d); cp -a /verif/evidence/. "$sav"/
 miss=0
 for d in seeded/${1}*/; do
   id=$(basename $d); prop=$(python3 -c "import json;print(json.load(open('$d/meta.json'))['property'])")
   extra=""
   case $id in C12-B-C12b) extra="C07";; esac
   if ! git -C /repo apply /verif/$d/patch.diff 2>/dev/null; then echo "$id: patch no longer applies"; continue; fi
-  hit=0
-  for p in $prop $extra; do ./check $p 2>&1 | grep -q "^VIOLATION" && hit=1; done
+  hit=0; inp=0
+  for p in $prop $extra; do
+    o=$(./check $p 2>&1 | grep "^VIOLATION")
+    [ -n "$o" ] && hit=1
+    echo "$o" | grep -v "no-failing-input-found" | grep -q "^VIOLATION" && inp=1
+  done
   git -C /repo checkout -- .
-  if [ $hit = 1 ]; then echo "$id: caught"; else echo "$id: NOT CAUGHT"; miss=1; fi
+  if [ $hit = 1 ]; then if [ $inp = 1 ]; then echo "$id: caught (failing input replayed)"; else echo "$id: caught (no input)"; fi; else echo "$id: NOT CAUGHT"; miss=1; fi
 done
+cp -a "$sav"/. /verif/evidence/; rm -rf "$sav"
 exit $miss
